@@ -178,6 +178,26 @@ def evaluate_env(env, c):
     return evaluate(env.driver("ts-asan"), c)
 
 
+def _cfg(opts, kind="fixed"):
+    return {"kind": kind, "ini": gen.render_ini(opts), "opts": opts}
+
+
+def _call(kind, path=b"/bin/x", argv=(b"x",), envp=(b"E=1",), ret=-1, err=2, real=False):
+    return {"kind": kind, "real": real, "argv": list(argv) if argv is not None else None, "envp": list(envp) if envp is not None else None,
+            "path": drv.ARGDUMP.encode() if real else path, "ret": ret, "err": err}
+
+
+FIXED = [
+    {"cfg": _cfg([(b"output", b"stdout")], "stdout"), "environ": "keep", "calls": [_call("e", real=True)]},             # record stuck in the stdio buffer
+    {"cfg": _cfg([(b"output", b"stdout")], "stdout"), "environ": "keep", "calls": [_call("v", ret=0, err=0)]},
+    {"cfg": _cfg([], "default"), "environ": [b"ONLY=1"], "calls": [_call("v"), _call("e", envp=(b"A=b",)), _call("v")]},   # execv / execve alternation
+    {"cfg": _cfg([(b"message_format", b"%{env_all}"), (b"output", b"devnull")], "devnull"), "environ": [b"BIG=" + b"b" * 4000, b"Z=1"],
+     "calls": [_call("v", real=True)]},                                                                                 # env_all must not touch the environment
+    {"cfg": _cfg([(b"output", b"file:@OUT@/log"), (b"output", b"devnull")], "file"), "environ": "keep", "calls": [_call("e"), _call("e")]},
+    {"cfg": _cfg([(b"filter_chain", b"only_uid:4242")], "default"), "environ": None, "calls": [_call("e", argv=None, envp=None, ret=2147483647, err=133)]},
+]
+
+
 def main():
     ctx = Ctx(PID, "exploration", RULE)
     ctx.assumptions = ["librecorder.so stands in for libc's execv/execve (it is what RTLD_NEXT resolves to)",
@@ -185,7 +205,7 @@ def main():
                        "real-success cases exec /verif/build/argdump with vectors small enough for the kernel (E2BIG excluded)"]
     b = ctx.run.build("ts-asan")
     nw, per = (4, 800) if ctx.quick else (16, 6500)
-    pbt.run(ctx, {"ts-asan": b}, strategy, evaluate_env, classify, nw, per, sample=sample)
+    pbt.run(ctx, {"ts-asan": b}, strategy, evaluate_env, classify, nw, per, sample=sample, fixed_cases=FIXED)
     ctx.finish()
 
 
